@@ -284,7 +284,8 @@ pub fn adversarial() -> Vec<(String, Vec<u8>)> {
     }
     // chains of headers that each declare a huge count: every one must be
     // refused at once, whatever follows
-    for n in [1usize, 1024] {
+    // (1000, not 1024: beyond the depth limit the chain is refused for that reason alone)
+    for n in [1usize, 200, 1000] {
         out.push((format!("msgpack_chained_array32_max_{}", n), [rep(b"\xdd\xff\xff\xff\xff", n), b"\xc0".to_vec()].concat()));
         out.push((format!("msgpack_chained_map32_max_{}", n), [rep(b"\xdf\xff\xff\xff\xff", n), b"\xc0\xc0".to_vec()].concat()));
         out.push((format!("msgpack_chained_array16_max_{}", n), [rep(b"\xdc\xff\xff", n), b"\x01".to_vec()].concat()));
